@@ -295,14 +295,15 @@ def run(ctx, widen=False):
                     _fail(ctx, key, "payload %r decodes (Windows1252Encoding) to %r" % (p[:60], unhex(dw).decode("utf-8", "replace")[:60]), [c], [o], exp[:80])
 
     # ---- documents -> call lists (all start flavours, explicit/implicit '=', typed values, write_binary forwarding)
-    ccases, cmeta = [], []
+    ccases, cmeta, traces = [], [], {}
     for i in range(ctx.scale(4000, 25000) * mul):
         d = docgen.gen_doc(rng, rng.randrange(0, 5), rng.randrange(1, 7), params=False, ghosts=False, object_tails=False, exotic=(i % 3 != 0))
         d = typed_doc(rng, d, floats)
-        calls = docgen.to_calls(d, rng, binary=rng.choice([0.0, 0.0, 0.3, 1.0]))
+        tr = []
+        calls = docgen.to_calls(d, rng, binary=rng.choice([0.0, 0.0, 0.3, 1.0]), trace=tr)
         if calls == "-":
             continue
-        ccases.append("writer.calls\t%s\t%s" % (rcfg(rng), calls)); cmeta.append(d)
+        ccases.append("writer.calls\t%s\t%s" % (rcfg(rng), calls)); cmeta.append(d); traces[len(ccases) - 1] = tr
     # every container flavour at depth: chains crossing the 16-byte indent cache
     for i in range(ctx.scale(250, 1500)):
         v = S("u", b"x")
@@ -322,6 +323,13 @@ def run(ctx, widen=False):
         if o in CRASH:
             _fail(ctx, "calls-crash", "well-formed call list crashed: %s" % o, [c], [o]); continue
         check_log(ctx, "calls-depth", c, o, c.split("\t")[2])
+        if k in traces:
+            got = o.split(" ")[1].split(",")
+            for j, (g, ek) in enumerate(zip(got, traces[k])):
+                if bool(int(g.lstrip("E").split(".")[1]) & 1) != ek:
+                    from props.C14 import has_mixed_nested_op as _mno
+                    _fail(ctx, "calls-mixed-nested-op" if _mno(cmeta[k], any_op=True) else "calls-expecting-key", "after call %d (%s) of a well-formed list expecting_key() = %s, the calls made so far say %s" % (j, c.split("\t")[2].split(";")[j][:40], not ek, ek), [c], [o], str(ek))
+                    break
         last = o.split(" ")[1].split(",")[-1]
         if last != "0.1":
             _fail(ctx, "calls-final-state", "after a complete document depth()/expecting_key() are %s, not 0/true" % last, [c], [o], "0.1")
